@@ -49,6 +49,17 @@ theorem par_perm_seq {P : Type} (S : Splitter P) (Inv : P → Prop) (hS : SplitO
     rw [List.map_flatten] at h2
     exact h2
 
+/-- **C07, `count()`.** Consuming the parallel join with `count()` — every leaf counts its own items, the counts are
+    added — gives the number of items of the sequential join, for every split tree. -/
+theorem par_count_eq_seq_count {P : Type} (S : Splitter P) (Inv : P → Prop) (hS : SplitOK S Inv)
+    (bound : Nat) (f : Nat → Int → Int) (w : JWorld) (ms : List Member) (p : P) (hp : Inv p)
+    (hkeys : S.keys p = (tupleMask w ms).toList bound) (t : SplitTree) :
+    ∃ outs w' seq wseq, parJoin f S w ms p t = .ok (outs, w') ∧ join bound f w ms = .ok (seq, wseq) ∧
+      (outs.map List.length).sum = seq.length := by
+  obtain ⟨outs, w', seq, wseq, h1, h2, hperm, _⟩ := par_perm_seq S Inv hS bound f w ms p hp hkeys t
+  refine ⟨outs, w', seq, wseq, h1, h2, ?_⟩
+  rw [← hperm.length_eq, List.length_flatten]
+
 /-- **C07 (b).** The leaves of any split tree are pairwise index-disjoint (so no component is ever
     handed out mutably to two workers), and each keeps the ascending order of its keys. -/
 theorem leaves_disjoint {P : Type} (S : Splitter P) (Inv : P → Prop) (hS : SplitOK S Inv)
